@@ -527,6 +527,11 @@ class _CompressionMiddleware:
                 title="Unsupported Content-Encoding",
                 description=f"Content-Encoding {content_encoding!r} is not supported by this server",
             )
+        if req_enc is Encoding.IDENTITY:
+            # "No transform applied": always acceptable and nothing to decode
+            # (it is not a codec, so it is never listed in ``_decode``).  The
+            # handler reads the body as if the header were absent.
+            return
         if req_enc not in self._decode:
             raise falcon.HTTPUnsupportedMediaType(
                 title="Unsupported Content-Encoding",
